@@ -6,7 +6,8 @@ export PYTHONPATH=${VERIF_REPO:-/repo} PYTHONHASHSEED=0
 ulimit -s unlimited 2>/dev/null || true
 /venv/bin/python - <<'PY'
 import sys
-sys.path.insert(0, "/verif")
+import os
+sys.path.insert(0, os.getcwd())
 from hv import common
 errs, tr = common.regen()
 print("translator:", {k: len(v) for k, v in tr.items()}, "errors:", errs)
